@@ -344,9 +344,10 @@ def run_mapcoord(c):
 
     from lcm.ndimage import map_coordinates
 
-    arr = jnp.asarray(np.array([_fr(x) for x in c["arr"]], dtype=np.float32).reshape(tuple(c["shape"])))
+    arr = jnp.asarray(np.array([_fr(x) for x in c["arr"]], dtype=np.int32 if c.get("int_dtype") else np.float32).reshape(tuple(c["shape"])))
     pts = np.array([[_fr(x) for x in p] for p in c["points"]], dtype=np.float32)      # (B, rank)
     out = dict(c)
+    out["int_dtype"] = bool(c.get("int_dtype"))
     if c.get("batched", True):
         coords = [jnp.asarray(pts[:, k]) for k in range(pts.shape[1])]
         res = np.asarray(map_coordinates(arr, coords)).ravel()
